@@ -94,10 +94,10 @@ func runC15(c *Ctx) Info {
 	c.C.ExpectControl("STRIDE")
 	c.C.Note("image.* member uses in library+controls: %d; pixel-buffer field reads: %d", nImgUses, nPix)
 	return Info{
-		Explanation: "Rule STRIDE over the SSA of every library function: each read of a pixel-buffer field (Pix / Y / Cb / Cr) of a standard-library image type must be accompanied, in the same function, by a read of the matching stride field or a call of the matching offset method. This is a necessary condition of the clause 'return width x height x components tightly packed samples' for decoders that repack an image/jpeg result; the +-2 grey-level agreement itself is not decided. Rule SUBSAMPLE: a function that indexes the Cb / Cr planes of an image.YCbCr itself (instead of At / YCbCrAt / COffset) must dispatch on SubsampleRatio over every ratio the image package declares, or end its dispatch in an error: a ratio that falls into a default written for another one reads the wrong chroma sample (or past the plane).",
+		Explanation:  "Rule STRIDE over the SSA of every library function: each read of a pixel-buffer field (Pix / Y / Cb / Cr) of a standard-library image type must be accompanied, in the same function, by a read of the matching stride field or a call of the matching offset method. This is a necessary condition of the clause 'return width x height x components tightly packed samples' for decoders that repack an image/jpeg result; the +-2 grey-level agreement itself is not decided. Rule SUBSAMPLE: a function that indexes the Cb / Cr planes of an image.YCbCr itself (instead of At / YCbCrAt / COffset) must dispatch on SubsampleRatio over every ratio the image package declares, or end its dispatch in an error: a ratio that falls into a default written for another one reads the wrong chroma sample (or past the plane).",
 		DoesNotCover: "numeric agreement with image/jpeg, MCU addressing, chroma upsampling, restart markers (all value-level)",
-		Trusted:     commonTrusted,
-		Extra:       map[string]any{"pix_field_reads": nPix, "image_member_uses": nImgUses, "direct_chroma_readers": nChroma},
+		Trusted:      commonTrusted,
+		Extra:        map[string]any{"pix_field_reads": nPix, "image_member_uses": nImgUses, "direct_chroma_readers": nChroma},
 	}
 }
 
